@@ -293,10 +293,10 @@ type SpendOracle struct {
 
 func (o *SpendOracle) Before(i *Inst, ev string) {
 	o.expect = ""
-	if !strings.HasPrefix(ev, "submit:") {
+	if !strings.HasPrefix(ev, "submit:") && !strings.HasPrefix(ev, "dotx:") {
 		return
 	}
-	tn := ev[7:]
+	tn := ev[strings.IndexByte(ev, ':')+1:]
 	tx := i.U.Tx(tn)
 	pool, err := i.W.State.GetUnconfirmedTx(false)
 	if err != nil {
@@ -320,11 +320,11 @@ func (o *SpendOracle) Before(i *Inst, ev string) {
 }
 
 func (o *SpendOracle) After(i *Inst, ev string, obs string) {
-	if o.expect == "" || !strings.HasPrefix(ev, "submit:") {
+	if o.expect == "" || (!strings.HasPrefix(ev, "submit:") && !strings.HasPrefix(ev, "dotx:")) {
 		return
 	}
 	accepted := obs == "ok"
-	tn := ev[7:]
+	tn := ev[strings.IndexByte(ev, ':')+1:]
 	if accepted && o.expect == "refuse" {
 		o.viol = append(o.viol, core.Violation{Key: "c03.admitted." + reasonKind(o.expectWhy) + ctx3(i, ev), Summary: fmt.Sprintf("tx %s was admitted although %s", tn, o.expectWhy)})
 	}
@@ -693,15 +693,8 @@ func liveAnswersOn(i *Inst, w *world.World) map[string]string {
 func (o *SnapshotOracle) Before(i *Inst, ev string) {}
 
 func (o *SnapshotOracle) After(i *Inst, ev string, obs string) {
-	if o.rec == nil {
-		o.rec = map[string]map[string]string{}
-	}
-	ptr := i.Ptr()
-	if len(i.PoolNames()) == 0 && !strings.HasPrefix(ptr, "?") {
-		if _, ok := o.rec[ptr]; !ok {
-			o.rec[ptr] = liveAnswers(i)
-		}
-	}
+	// nothing: the oracle must not look at the pool between events (GetUnconfirmedTx re-sorts the
+	// pool and refreshes counters a stale copy of which the code under test may rely on)
 }
 
 func (o *SnapshotOracle) Check(i *Inst, hist []string) []core.Violation {
@@ -713,9 +706,21 @@ func (o *SnapshotOracle) Check(i *Inst, hist []string) []core.Violation {
 	if o.rec == nil {
 		o.rec = map[string]map[string]string{}
 	}
-	if len(i.PoolNames()) == 0 {
-		if _, ok := o.rec[ptr]; !ok {
-			o.rec[ptr] = liveAnswers(i)
+	// the tip snapshot first, before this oracle asks anything else of the node: a client reads it
+	// right after the last event, not after a pool query
+	type tipAns struct {
+		v   string
+		err error
+	}
+	var tipRead map[string]tipAns
+	var tipErr error
+	if tr, err := i.W.State.GetTipXMSnapshotReader(); err != nil {
+		tipErr = err
+	} else {
+		tipRead = map[string]tipAns{}
+		for _, k := range KVKeys {
+			bv, err := tr.Get(world.VKVBucket, []byte(k))
+			tipRead[k] = tipAns{fmt.Sprintf("%q", bv), err}
 		}
 	}
 	chainNames := i.Chain(ptr)
@@ -766,15 +771,13 @@ func (o *SnapshotOracle) Check(i *Inst, hist []string) []core.Violation {
 		rec = o.rec[ptr]
 	}
 	if rec != nil {
-		tr, err := i.W.State.GetTipXMSnapshotReader()
-		if err != nil {
-			out = append(out, core.Violation{Key: "c18.tip_create_failed", Summary: err.Error()})
+		if tipErr != nil {
+			out = append(out, core.Violation{Key: "c18.tip_create_failed", Summary: tipErr.Error()})
 		} else {
 			for _, k := range KVKeys {
-				bv, err := tr.Get(world.VKVBucket, []byte(k))
-				gotv := fmt.Sprintf("%q", bv)
-				if err != nil {
-					gotv = "ERR " + err.Error()
+				gotv := tipRead[k].v
+				if tipRead[k].err != nil {
+					gotv = "ERR " + tipRead[k].err.Error()
 				}
 				wantv := rec[k]
 				if j := strings.LastIndex(wantv, "@"); j >= 0 {
